@@ -177,6 +177,15 @@ def body_inverse(case):
             p2 = np.asarray(taus.tau_exit_prob(beta, log_e))
         require(np.roll(p2, roll).tobytes() == p1.tobytes(), "exit probabilities do not follow the events after the caller refilled its arrays in place")
     labels = set()
+    # two overlapping calls (a user thread pool): on ONE object and on two objects of this table version - the batch
+    # and the same batch reversed (equal shapes); harness-owned schedule, see nssverif/interleave.py
+    if case.get("preempt") and n <= 4096:
+        from ..interleave import check_overlapping
+
+        other = _taus(version) if case["preempt"][0] % 2 else taus
+        b_r, e_r, u_r = beta[::-1].copy(), log_e[::-1].copy(), u[::-1].copy()
+        if check_overlapping(lambda: taus.tau_energy(beta, log_e, u), lambda: other.tau_energy(b_r, e_r, u_r), case["preempt"], f"Taus.tau_energy ({n} events, {'two objects' if other is not taus else 'one object'})"):
+            labels.add("overlapping_calls")
     if valid.any() and low.any() and high.any():
         labels.add("mixed_angles")
     if node_hit.any():
@@ -386,7 +395,7 @@ REJECT_ST = (
 SUBCHECKS = [
     SubCheck(
         "inverse",
-        st.fixed_dictionaries({"version": version_st, "events": st.lists(event_st, min_size=1, max_size=24), "n": N_ST}),
+        st.fixed_dictionaries({"version": version_st, "events": st.lists(event_st, min_size=1, max_size=24), "n": N_ST, "preempt": st.one_of(st.just([]), st.lists(st.one_of(st.integers(0, 40), st.integers(0, 400)), min_size=1, max_size=3))}),
         body_inverse,
         _nt,
         {"quick": 400, "thorough": 30000},
